@@ -1,6 +1,7 @@
 (* C08 -- property theorems only.  Proofs live in C08/Proofs*.v. *)
 From Coq Require Import NArith List Bool Permutation.
-From DV Require Import Base.Outcome C08.Gen C08.Model C08.Spec C08.ProofsQuery C08.ProofsBuild C08.ProofsHist C08.ProofsGood C08.ProofsPlain C08.ProofsGroup C08.ProofsSafe C08.ProofsTree.
+From DV Require Import Base.Outcome C08.Gen C08.Model C08.Spec C08.ProofsQuery C08.ProofsBuild C08.ProofsHist C08.ProofsGood C08.ProofsPlain C08.ProofsGroup C08.ProofsSafe C08.ProofsTree C08.ProofsSafe2 C08.ToMessage.
+From DV Require C02.Model C02.ProofsTotal.
 Import ListNotations.
 Local Open Scope N_scope.
 
@@ -135,6 +136,46 @@ Theorem C08_safe_histories_confluent : forall zs us us', zone_file_only zs = tru
 Proof. exact safe_histories_confluent. Qed.
 Print Assumptions C08_safe_histories_confluent.
 
+(* operations that change the delegation / alias state: DeleteAllRecords, remove_all,
+   make_zone_cut, make_cname, make_regular; the state after a history is computed from the operations *)
+Theorem C08_ext_safe_history_state : forall zs us, zone_file_only zs = true -> forallb ext_safe_op us = true ->
+  wfu (run (zs ++ us)) /\ forall p, cspecial_at (run (zs ++ us)) p = sp_final us (cspecial_at (run zs)) p.
+Proof. exact ext_safe_history_state. Qed.
+Print Assumptions C08_ext_safe_history_state.
+
+Theorem C08_zone_file_state : forall rs, accepted rs = true -> buildable (zf_of_records rs) = true ->
+  forall p, cspecial_at (run (map OZRec rs)) p = zf_state (zf_of_records rs) p.
+Proof. exact zone_file_state. Qed.
+Print Assumptions C08_zone_file_state.
+
+Theorem C08_ext_safe_history_independent : forall rs us t,
+  accepted rs = true -> buildable (zf_of_records rs) = true -> forallb ext_safe_op us = true ->
+  wfu t -> (forall p, rrsets_at (run (map OZRec rs ++ us)) p = rrsets_at t p) ->
+  (forall p, cspecial_at t p = sp_final us (zf_state (zf_of_records rs)) p) ->
+  cspecial_at t [] = None ->
+  forall q qt, query (run (map OZRec rs ++ us)) q qt = query t q qt.
+Proof. exact ext_safe_history_independent. Qed.
+Print Assumptions C08_ext_safe_history_independent.
+
+Theorem C08_history_vs_rebuilt : forall rs us rs',
+  accepted rs = true -> buildable (zf_of_records rs) = true -> forallb ext_safe_op us = true ->
+  accepted rs' = true -> buildable (zf_of_records rs') = true ->
+  (forall p, rrsets_at (run (map OZRec rs ++ us)) p = rrsets_at (run (map OZRec rs')) p) ->
+  (forall p, zf_state (zf_of_records rs') p = sp_final us (zf_state (zf_of_records rs)) p) ->
+  forall q qt, query (run (map OZRec rs ++ us)) q qt = query (run (map OZRec rs')) q qt.
+Proof. exact history_vs_rebuilt. Qed.
+Print Assumptions C08_history_vs_rebuilt.
+
+Theorem C08_referral_carries_glue : forall zf q qt p c, wf_zone zf = true ->
+  find_cut (flat_view zf) q = Some (p, c) -> (name_eqb p q && (qt =? rt_ds)) = false ->
+  exists ns ds, alookup p (zf_cuts zf) = Some (Some ns, ds) /\
+    let a := query (fst (zf_build zf)) q qt in
+    a_rcode a = rc_noerror /\ a_aa a = false /\ a_content a = ANoData /\
+    a_auth a = Some (mkAuth p None (Some ns) ds) /\
+    forall g, In g (a_addl a) <-> is_glue_of (zf_normal zf) ns g.
+Proof. exact referral_carries_glue. Qed.
+Print Assumptions C08_referral_carries_glue.
+
 Theorem C08_known_classes_break_representation : forall t zf p x, node_at t p = Some x ->
   (is_apex p || node_exists x = true -> clean (n_special x) <> i_special (info_at_g (zf_normal zf) zf p) -> ~ represents t zf) /\
   (node_exists x = true -> exists_name zf p = false -> ~ represents t zf).
@@ -163,3 +204,18 @@ Theorem C08_special_survives_delete_refuted :
                  a_rcode (query (build (content h)) q qt) = rc_nxdomain /\ ~ history_ok h q qt.
 Proof. exact special_survives_delete_refuted. Qed.
 Print Assumptions C08_special_survives_delete_refuted.
+
+(* Answer::to_message over C02's message-builder model: if the pushed items are well formed and no
+   push fails (each is unwrapped), the octets parse back to exactly the Answer's sections, in order *)
+Theorem C08_to_message_parses_to_answer :
+  forall (enc_name : name -> DV.Base.Names.name) (enc_rdata : rtype -> rdata -> list C02.Model.ritem) (prefixed : rtype -> bool)
+         (qname : DV.Base.Names.name) (qtype qclass rid ropcode : N) (rrd : bool) (glue_class : N)
+         c s0 a s acc ws,
+  C02.Model.init c = Some s0 ->
+  Forall C02.ProofsTotal.wf_op_sized (to_message_ops enc_name enc_rdata prefixed qname qtype qclass rid ropcode rrd glue_class a) ->
+  C02.Model.run_acc c s0 C02.Model.acc0 (to_message_ops enc_name enc_rdata prefixed qname qtype qclass rid ropcode rrd glue_class a) = (s, acc, ws) ->
+  no_push_failed ws ->
+  exists parsed, C02.Model.rd_message (C02.Model.msg_of s) (intended enc_name enc_rdata prefixed qname qtype qclass glue_class a) = Ok parsed /\
+                 C02.Model.acc_eqb parsed (intended enc_name enc_rdata prefixed qname qtype qclass glue_class a) = true.
+Proof. exact to_message_parses_to_answer. Qed.
+Print Assumptions C08_to_message_parses_to_answer.
